@@ -217,6 +217,22 @@ func (w *crashWorker) runCrashSequence(cs caseSpec) {
 			conflict = append(conflict, op.MutHi, op.MutHi-1, (op.MutLo+op.MutHi)/2)
 		}
 	}
+	// mandatory positions: between the file removals of one op (a conflicting append that
+	// discards two or more files, a prefix deletion that drops two or more files)
+	var mandatory []int64
+	between := map[int64]bool{}
+	for _, op := range ops {
+		var rm []int64
+		for _, m := range muts {
+			if m.kind == "remove" && m.n > op.MutLo && m.n <= op.MutHi {
+				rm = append(rm, m.n)
+			}
+		}
+		if len(rm) >= 2 && (op.K == "save" || len(mandatory) < 2) {
+			mandatory = append(mandatory, rm[1])
+			between[rm[1]] = true
+		}
+	}
 	what := map[int64]string{}
 	for _, m := range muts {
 		what[m.n] = m.kind + " " + m.path + " " + m.size
@@ -240,7 +256,10 @@ func (w *crashWorker) runCrashSequence(cs caseSpec) {
 			continue
 		}
 		var k int64
-		for try := 0; try < 20; try++ {
+		if i < len(mandatory) && i < nk-2 {
+			k = mandatory[i]
+		}
+		for try := 0; try < 20 && k == 0; try++ {
 			switch x := rng.IntN(10); {
 			case x < 4 && len(conflict) > 0:
 				k = conflict[rng.IntN(len(conflict))]
@@ -252,11 +271,15 @@ func (w *crashWorker) runCrashSequence(cs caseSpec) {
 			if k >= 1 && k <= total && !seen[k] {
 				break
 			}
+			k = 0
 		}
 		if k < 1 || k > total {
 			k = 1 + rng.Int64N(total)
 		}
 		seen[k] = true
+		if between[k] {
+			c.Distinct("kill-target", "between-the-file-removals-of-one-op")
+		}
 		// the child needs the ops up to the one containing mutation k
 		last := len(ops) - 1
 		for j, op := range ops {
